@@ -307,6 +307,10 @@ def run(root, pid, tier, seed, replay):
         print('ERROR: check machinery failed:', e)
         return 2
     violations += found
+    if violations and violations[0].get('kind') == 'proof-broken' and any(not v.get('no_input') for v in found):
+        # the search found concrete failing inputs for the broken obligation: they are reported below
+        violations[0]['no_input'] = False
+        violations[0]['text'] += ' (concrete failing inputs found by the search: see the following replays)'
     if replay_key is not None:
         violations = [v for v in violations if v['key'] == replay_key or str(v['key']).startswith('theorem:')]
 
